@@ -146,6 +146,27 @@ pub fn stub_file_write(f: &mut File, buf: &[u8]) -> io::Result<usize> {
     Ok(buf.len())
 }
 
+/// `<File as Seek>::seek` on the model: the handle's position (an append-mode handle starts at 0
+/// like a descriptor opened with O_APPEND and jumps to the end with every write).
+pub fn stub_file_seek(f: &mut File, to: io::SeekFrom) -> io::Result<u64> {
+    let h = handle_of(f);
+    let d = fs::disk();
+    unsafe {
+        let len = d.inodes[HANDLES[h].inode].len as i64;
+        let cur = HANDLES[h].pos as i64;
+        let target = match to {
+            io::SeekFrom::Start(n) => n as i64,
+            io::SeekFrom::Current(n) => cur + n,
+            io::SeekFrom::End(n) => len + n,
+        };
+        if target < 0 {
+            return Err(io::Error::from(io::ErrorKind::InvalidInput));
+        }
+        HANDLES[h].pos = target as usize;
+        Ok(target as u64)
+    }
+}
+
 pub fn stub_file_flush(_f: &mut File) -> io::Result<()> {
     Ok(())
 }
